@@ -566,7 +566,7 @@ CONSTANTS
  Mode = "%s"
  ParseAlpha = {0, 1, 2, 3, 4, 5, 32, 48, 50, 52, 64, 97, 98, 128, 130, 144, 162, 192, 255}
  ParseMaxLen = %d
-INVARIANTS SelfConsistent Emit
+INVARIANTS SelfConsistent PadConsistent Emit
 """
 
 
@@ -579,12 +579,29 @@ def codec_cases(v):
     return cases
 
 
-def account(v, res, label, extra=None):
+def codec_variants(v, mode):
+    """pads: reference cases with a non-minimal remaining length; mods: pairs (decoded case, case set through the setters)"""
+    r = core.cached_tlc("codec-" + mode, "Codec", CODEC_CFG % (mode, 0), workers=1, timeout=900)
+    v.tlc("Codec(%s)" % mode, r)
+    xs = core.behaviours(r.lines)
+    if len(xs) < 100:
+        raise Infra("Codec(%s): only %d cases" % (mode, len(xs)))
+    return xs
+
+
+def account(v, res, label, extra=None, own=None):
     v.cov["parts"][label] = dict({"inputs": res.get("evaluations", 0), "checks": res.get("steps", 0),
                                   "mismatching": res.get("nmismatch", 0)}, **(extra or {}))
     v.cov["evaluations"] += res.get("evaluations", 0)
     v.cov["traces_validated_against_impl"] += res.get("evaluations", 0)
-    v.mismatches(res.get("mismatches"), res.get("counts"))
+    ms = res.get("mismatches") or []
+    if own is not None:
+        foreign = [m for m in ms if m.get("tag") not in own]
+        ms = [m for m in ms if m.get("tag") in own]
+        if foreign:
+            v.cov["diverged_foreign"] = v.cov.get("diverged_foreign", 0) + len(foreign)
+            v.notes.append("%s: %d inputs diverged on observables of another property, e.g. %s" % (label, len(foreign), foreign[0]["what"][:200]))
+    v.mismatches(ms, res.get("counts"))
     v.add_samples(res.get("samples") or [], 2)
 
 
@@ -598,19 +615,30 @@ def c03(tier):
     res = core.merge(core.run_sharded(["codec"], cases, timeout=900))
     account(v, res, "reference-cases", {"cases_by_type": by})
     v.cov["distinct_nontrivial"] += len(cases)
+    # messages changed through their setters after Decode (as the broker does), and packets with a non-minimal remaining length
+    mods = codec_variants(v, "mods")
+    res = core.merge(core.run_sharded(["codec"], mods, timeout=900))
+    account(v, res, "changed-after-decode", {"pairs": len(mods)}, own={"C03"})
+    v.cov["distinct_nontrivial"] += len(mods)
+    pads = codec_variants(v, "pads")
+    res = core.merge(core.run_sharded(["codec"], pads, timeout=900))
+    account(v, res, "padded-remaining-length", {"accepted": res.get("counts", {}).get("padded_accepted", 0),
+                                                "refused": res.get("counts", {}).get("padded_refused", 0)}, own={"C03"})
     # history of the process-wide packet-id counter, in one fresh process
     n = 131073 if tier != "thorough" else 300000
     p = core.run_harness(["codecids", "-n", str(n)], timeout=600)
     if p.returncode != 0:
         raise Infra("codecids failed: %s" % p.stderr[-2000:])
     res2 = json.loads(p.stdout.strip().splitlines()[-1])
-    account(v, res2, "automatic-packet-ids")
+    account(v, res2, "automatic-packet-ids", own={"C03"})
     r = core.cached_tlc("packetid", "PacketId", "SPECIFICATION Spec\nCONSTANTS N = 131073\nINVARIANTS IdNonZero\n", workers=1, timeout=600)
     v.tlc("PacketId", r)
     v.cov["rule"] = ("every case of the Codec specification (product of boundary classes: string/payload lengths 0/1/127/128/16383/16384/65535, "
                      "remaining lengths on both sides of every varint boundary, 1..9 filters, all flag combinations, ids 1/255/256/65535) is built "
                      "through the public setters and compared with the reference wire form: Len, Encode bytes, Decode length and fields, re-encode, "
-                     "decode with trailing bytes; plus %d consecutive automatically numbered encodes. distinct_nontrivial = cases" % n)
+                     "decode with trailing bytes; pairs (A, B) of small cases: A's wire form is decoded, the fields in which B differs are set through the setters (packet "
+                     "identifier also left to the library), Len and Encode must give B's wire form; packets with padded remaining length, if accepted, re-encode "
+                     "to their bytes; plus %d consecutive automatically numbered encodes. distinct_nontrivial = cases + pairs" % n)
     v.cov["exhaustive"] = True
     v.assumptions += ["exhaustive over classes of field values, not over all values; bulk content is expanded from seeds by the harness",
                       "the reference codec is a transcription of MQTT 3.1.1 into TLA+ (self-consistency checked by TLC: Parse inverts Wire)"]
@@ -629,13 +657,19 @@ def c04(tier):
     account(v, res, "short-strings", {"strings": len(strs), "wellformed": sum(1 for x in strs if x["p"]["ok"]),
                                       "lenient_accepts": res.get("counts", {}).get("lenient_accepts", 0)})
     v.cov["distinct_nontrivial"] += len(strs)
+    pads = codec_variants(v, "pads")
+    resp = core.merge(core.run_sharded(["codec"], pads, timeout=900))
+    account(v, resp, "padded-remaining-length", {"accepted": resp.get("counts", {}).get("padded_accepted", 0),
+                                                 "refused": resp.get("counts", {}).get("padded_refused", 0)}, own={"C04"})
+    v.cov["distinct_nontrivial"] += len(pads)
     res2 = core.merge(core.run_sharded(["decodemut", "-seed", str(core.seed()), "-random", "20000" if not thorough else "400000"], cases, timeout=1500))
     account(v, res2, "mutations-and-random", {"lenient_accepts": res2.get("counts", {}).get("lenient_accepts", 0)})
     v.cov["distinct_nontrivial"] += res2.get("steps", 0)
     v.cov["rule"] = ("all byte strings of length <= 4 over a 19-byte structure alphabet judged by the total reference parser (Codec!Parse) and fed to all "
                      "14 decoders; truncations at/next to every segment boundary and edits of every structure byte of every reference case; seeded "
                      "random byte strings; every input in a slice with cap = len inside a canary array, under recover. A panic, n > len, a field "
-                     "outside the decoded packet or a well-formed packet rejected/misread is a violation. distinct_nontrivial = strings + decode calls on mutations")
+                     "outside the decoded packet or a well-formed packet rejected/misread is a violation; reference packets with a non-minimal remaining length "
+                     "(1-3 padding bytes) may be refused, but if accepted must yield the packet's fields and byte count. distinct_nontrivial = strings + decode calls on mutations")
     v.cov["exhaustive"] = False
     v.assumptions += ["totality over all byte strings is approximated by structured and random inputs",
                       "leniencies (malformed input accepted) are counted, not reported: the property allows 'a message or an error'"]
@@ -729,7 +763,8 @@ def broker_check(pid, tier, plan, own, rule, extra=None):
 
 @check("C01")
 def c01(tier):
-    return broker_check("C01", tier, [("RoutingSpec", "cover", 3, 4, "mockSuccess"), ("RoutingSpec", "paths", 2, 3, "mockSuccess"), ("RoutingSpec", "paths", 2, 2, "mockSuccess", 1)], {"C01"},
+    return broker_check("C01", tier, [("RoutingSpec", "cover", 3, 4, "mockSuccess"), ("RoutingSpec", "paths", 2, 3, "mockSuccess"), ("RoutingSpec", "paths", 2, 2, "mockSuccess", 1),
+                                      ("SameSpec", "cover", 6, 7, "mockSuccess"), ("SameLastSpec", "paths", 5, 6, "mockSuccess")], {"C01"},
                         "Broker specification, configuration routing: 2 network clients + 1 in-process subscriber, filters {a/b,a/+,a/#,#,+/b}, names "
                         "{a/b,a,a/b/c,c}, publish QoS x granted QoS in {0,1,2}^2, payloads tiny/empty/big; transition cover and all paths; after every "
                         "step the PUBLISH packets on every connection (topic, payload bytes, QoS, retain flag) are compared with the specification's bag. "
@@ -769,7 +804,7 @@ def c07(tier):
 
 @check("C08")
 def c08(tier):
-    return broker_check("C08", tier, [("RetainSpec", "cover", 3, 4, "mockSuccess"), ("Retain1Spec", "paths", 4, 5, "mockSuccess")], {"C08", "C01"},
+    return broker_check("C08", tier, [("RetainSpec", "cover", 3, 4, "mockSuccess"), ("Retain1Spec", "paths", 4, 5, "mockSuccess"), ("RetTreeLastSpec", "paths", 5, 6, "mockSuccess")], {"C08", "C01"},
                         "configuration retain: retained / non-retained / empty-payload publishes (QoS 0..2) on parent, child and sibling topics, replacement by "
                         "shorter and longer payloads, subscriptions with literal and wildcard filters (also two filters in one request, in-process subscriber); "
                         "packets after SUBACK and live forwards compared incl. retain flag, QoS, payload bytes. Concurrent part: recorded runs in which one client "
@@ -1123,6 +1158,11 @@ def c12(tier):
     if not behs:
         raise Infra("ManySpec simulation produced no behaviours")
     client_replay(v, "C12", behs, "many-outstanding(simulation)", {"C12", "C02"})
+    # automatic identifiers over more than one period of the process-wide counter: consecutive ones are distinct
+    p = core.run_harness(["codecids", "-n", "131073" if not thorough else "300000"], timeout=600)
+    if p.returncode != 0:
+        raise Infra("codecids failed: %s" % p.stderr[-2000:])
+    account(v, json.loads(p.stdout.strip().splitlines()[-1]), "automatic-packet-ids(distinct)", own={"C12"})
     # schedules of the named deviation: the acknowledgement is processed while the sending call is held
     # at the yield point between write and register
     behs = client_behaviours(v, "DevSpec", 4 if not thorough else 5, 2, "paths", dev="TRUE")
@@ -1160,6 +1200,8 @@ def c20(tier):
     client_replay(v, "C20", behs, "dispatch(cover)", {"C20", "C12", "C02"})
     behs = client_behaviours(v, "DispSpec", 3 if not thorough else 4, 2, "paths")
     client_replay(v, "C20", behs, "dispatch(paths)", {"C20", "C12", "C02"})
+    behs = client_behaviours(v, "TreeLastSpec", 5 if not thorough else 7, 4, "paths")
+    client_replay(v, "C20", behs, "local-tree-histories(paths)", {"C20", "C12", "C02"})
     v.cov["rule"] = ("Client.Connect against CONNACK code 0..5, session present, invalid code, wrong packet, truncated, closed: nil exactly for code 0, else the code, no library "
                      "goroutine left. Client specification, dispatch: Subscribe requests with overlapping filters (a/#, a/+), f/# against f, rejected filters (0x80), Unsubscribe, "
                      "inbound PUBLISH QoS 0..2 with DUP repeats, matching and non-matching topics; per step the invocations of every request's callback are compared with the "
